@@ -438,6 +438,52 @@ def sections(ctx: Any) -> List[Ob]:
             unmarked = unmarked or pcfg.path_avoiding(w_, lambda n: n is pcfg.exit, lambda n: n in fin)
     obs.append(ob(R, pk0, (unmarked[-2].ast if unmarked and len(unmarked) > 1 and unmarked[-2].ast is not None else (fin[0].ast if fin else 'self.state = STATE_FINISHED')), 'once something has been written, every normal way out of packets() marks the message finished (a later call returns the same sequence instead of building on top of it)', bool(fin) and unmarked is None, 'a path returns after writing without setting the finished mark' if unmarked else ''))
     obs.append(ob(R, pk0, fin[0].ast if fin else 'self.state = STATE_FINISHED', 'the finished mark is set after the last write (no writer can run -- and raise -- once it is set)', bool(fin) and not early, f'a writer at line {early[0][1].line} can run after the message was marked finished at line {early[0][0].line}' if early else ''))
+    # every section is written from its first entry: the four offsets start at 0
+    from .common import local_defs as _ld14
+
+    d14 = _ld14(pk0)
+    off_names = sorted({norm(a.target) for a in walk_local_ordered(pk0.node) if isinstance(a, ast.AugAssign) and isinstance(a.target, ast.Name) and 'offset' in a.target.id})
+    starts = {n_: [prog.try_fold(pk0.module, v) for v in d14.get(n_, []) if v is not None][:1] for n_ in off_names}
+    obs.append(ob(R, pk0, f'{", ".join(off_names)} = 0', 'every section is written out from its first entry (the offsets start at 0)', len(off_names) == 4 and all(v == [(True, 0)] for v in starts.values()), str(starts)))
+    # a message that was already built is handed out as it is: nothing is written again, nothing is appended to the sequence
+    sme14 = pk0.params[0]
+    for finished in (True, False):
+        st_atoms = {norm(t.ast): finished for t in pcfg.nodes if t.kind == 'test' and t.ast is not None and 'state' in norm(t.ast) and not t.in_loop}
+        if not st_atoms:
+            raise AnalysisError('anchor vanished: the already-finished test of packets()')
+        oc_f, _ = fd.run_paths(prog, pk0.module, pcfg, st_atoms, lambda n, e: ['WRITE' for c in fd.node_calls(n, e) if call_name(c).startswith(('_write_', '_insert_')) or call_name(c) == 'append'], loop_bound=1)
+        wrote = {('WRITE' in strip_ret(t)) for t in oc_f}
+        obs.append(ob(R, pk0, f'packets() on a message that {"was already built" if finished else "has not been built"}', 'the stored sequence is returned untouched' if finished else 'the datagrams are built', wrote == ({False} if finished else {True}), f'writes on the paths: {sorted(wrote)}'))
+    # one trip of the packet loop as a table over (entries remain?, anything written?): the datagram of the trip is handed out
+    # exactly once; the builder is reset for the next datagram -- and the loop goes round -- exactly when entries remain and
+    # the trip made progress; with entries remaining but no progress the loop is left (no endless sequence of empty datagrams);
+    # with nothing remaining it ends without a reset
+    lt = [n for n in pcfg.nodes if n.kind == 'loop_test']
+    if len(lt) != 1:
+        raise AnalysisError('anchor vanished: the packet loop of packets()')
+    prog_defs = [st_ for st_ in walk_local_ordered(pk0.node) if isinstance(st_, ast.Assign) and isinstance(st_.targets[0], ast.Name) and isinstance(st_.value, ast.Call) and norm(st_.value.func) == 'bool' and st_.value.args and self_attr(st_.value.args[0], pk0.params[0]) == 'data']
+    for more in (True, False):
+        for progress in (True, False):
+            atoms_t = {'._has_more_to_add()': more, '.is_query()': True, '.multicast': True}
+            if prog_defs:
+                atoms_t[norm(prog_defs[0].value)] = progress
+
+            def eff_t(n: Any, e: Any) -> List[Any]:
+                out_ = []
+                for c in fd.node_calls(n, e):
+                    if call_name(c) == 'append' and isinstance(c.func, ast.Attribute) and ('packets' in norm(c.func.value)):
+                        out_.append('HANDOUT')
+                    if call_name(c) == '_reset_for_next_packet':
+                        out_.append('RESET')
+                if n in fin:
+                    out_.append('FIN')
+                return out_
+
+            oc_t, und_t = fd.run_paths(prog, pk0.module, pcfg, atoms_t, eff_t, start=lt[0], stop=lambda n: n is lt[0], init_locals={norm(lt[0].ast): True} if isinstance(lt[0].ast, ast.Name) else None, loop_bound=1)
+            got_t = {tuple(x for x in strip_ret(t) if x in ('HANDOUT', 'RESET', 'FIN')) for t in oc_t}
+            # (a trip that neither resets nor finishes has come back to the loop test with nothing remaining: the loop ends there)
+            want_t = {('HANDOUT', 'RESET')} if (more and progress) else ({('HANDOUT',)} if progress else {('HANDOUT', 'FIN')})
+            obs.append(ob(R, pk0, f'one datagram built: entries remain={more}, something was written={progress}', f'effects {sorted(want_t)[0]}', bool(prog_defs) and got_t == want_t, f'got {sorted(got_t)}; tests left open (logging): {und_t}'))
     return obs
 
 
